@@ -3062,6 +3062,9 @@ def mk_cat(parts) -> Val:
             flat.append(t)              # an opaque array is named by its term, however it reached the concatenation (when the term tells its extent)
         else:
             flat.append(p_)
+    if len(parts) == 1 and isinstance(parts[0], Num) and parts[0].length is not None:
+        # the concatenation of one array is (a copy of) that array
+        return Num(parts[0].r, parts[0].length, 'ndarray')
     return Term('cat', tuple(flat), kind='ndarray')
 
 
